@@ -27,40 +27,88 @@ FIX_COMMITS = ["d6ae502 (passive start-up cancellation: port/listener leak)",
 
 # dimensions added after the fourth wave of seeded changes (plug-in APIs as part of the input space)
 EXTRA = {
-    "C01": " Also on custom backends the PathIO API allows: written data reaching the file only at close() with a close() "
-           "that suspends (read-back by another session explored right after the completion reply), and read() returning "
-           "fewer bytes than asked for.",
-    "C02": " Also: a pipelined CWD while the previous command's path checks are suspended in the backend (every "
-           "completion order with <= d deviations): each mutating backend call must name a path for which the "
-           "permission lookup was made.",
-    "C03": " Also with a user manager whose get_user/authenticate/notify_logout really suspend: every pipelined burst of "
-           "2-3 login commands and probes from 5 pre-states under every completion order with <= d deviations - never "
-           "more authority (served probes, final login) than executing the burst in order.",
-    "C04": " Also: a pipelined CWD while the path checks of the previous command wait for executor jobs (every completion "
-           "order with <= d deviations) or for one slow operation kind; effect oracle: the tree changes only where "
-           "writing is allowed and nothing of an unreadable location is revealed.",
-    "C05": " Also every command of the alphabet on a server with path_timeout whose backend calls outlast it: exactly one "
-           "final reply, session continues.",
-    "C06": " The line alphabet includes the characters str.splitlines() treats as boundaries (VT, FF, GS, NEL, LS, lone CR).",
-    "C07": " Also: the k-th backend call of a listing fails (k=1..15, MLSD and LIST): a listing reported complete has every "
-           "entry exactly once.",
-    "C09": " Also with backends (client and server side) whose read() returns 1 or 3 bytes at a time.",
-    "C10": " Also with a suspending user manager: BFS on it and disconnect / pipelined-USER races inside its awaits; the "
-           "alphabet includes an empty line and an unknown verb.",
-    "C11": " Also on an IPv6 control connection (PASV answered 503, EPSV served).",
-    "C12": " Also on a speed-limited server and with a suspending user manager, with additional cuts placed before every "
-           "advance of virtual time (the server sleeps in a throttle pause or a slow backend call); the clock is frozen at "
-           "the cut itself.",
-    "C14": " Also on the executor-based backend (ABOR racing with file operations in flight). Also with a second data connection opened in advance for the next transfer just before the ABOR, and that "
-           "transfer then run without a new PASV.",
-    "C16": " Also with a user manager whose logout notification takes 5 s: the sockets must still be released at the bound; "
-           "and sessions that end with QUIT (alone or pipelined behind other commands) from a peer that does not read.",
-    "C17": " Every backend call on a session's own directory must come from the PathIO instance created for that session's "
-           "Connection (custom backends read it).",
-    "C18": " Including uploads sent in two pieces with an MLST of the same file between them.",
-    "C19": " LIST lines that end before the file name are explicit cases (reported, not dropped as '.').",
-    "C20": " Also what follows an accepted login (work, re-login) alone and next to a second session of the same account "
-           "that quits or vanishes.",
+    'C01':
+        ' Also on custom backends the PathIO API allows: written data reaching the file only at close() with '
+        'a close() that suspends (read-back by another session explored right after the completion reply), '
+        'and read() returning fewer bytes than asked for. The simulated transport keeps queued data by '
+        'reference beyond a 0-2 byte kernel buffer (as asyncio does), so buffer re-use by a backend or stream '
+        'shows; one read() until EOF and client limits below the file size are client read styles.',
+    'C02':
+        " Also: a pipelined CWD while the previous command's path checks are suspended in the backend (every "
+        'completion order with <= d deviations): each mutating backend call must name a path for which the '
+        'permission lookup was made. Names beginning with a blank are in the wire alphabet; an exception of '
+        'the path resolver is a violation.',
+    'C03':
+        ' Also with a user manager whose get_user/authenticate/notify_logout really suspend: every pipelined '
+        'burst of 2-3 login commands and probes from 5 pre-states under every completion order with <= d '
+        'deviations - never more authority (served probes, final login) than executing the burst in order. A '
+        'user table with an empty-string password.',
+    'C04':
+        ' Also: a pipelined CWD while the path checks of the previous command wait for executor jobs (every '
+        'completion order with <= d deviations) or for one slow operation kind; effect oracle: the tree '
+        'changes only where writing is allowed and nothing of an unreadable location is revealed.',
+    'C05':
+        ' Also every command of the alphabet on a server with path_timeout whose backend calls outlast it: '
+        'exactly one final reply, session continues. Arguments with doubled leading slashes; a server that '
+        'waits for the data connection without limit.',
+    'C06':
+        ' The line alphabet includes the characters str.splitlines() treats as boundaries (VT, FF, GS, NEL, '
+        'LS, lone CR). Every high byte of latin-1 / cp1251 alone, doubled and tripled; replies the server '
+        'encoding cannot represent, through the real writer and a real client.',
+    'C07':
+        ' Also: the k-th backend call of a listing fails (k=1..15, MLSD and LIST): a listing reported '
+        'complete has every entry exactly once. A listing whose data connection arrives 10 s .. 1 h after the '
+        'verb with an entry created in between; another session replacing files and directories between two '
+        'looks, on all three backends.',
+    'C08':
+        ' Every high byte of the single-byte encodings (alone, doubled, after 0xFF); the bare relative name '
+        'nested in itself and re-made after removal under another spelling or by another session.',
+    'C09':
+        ' Also with backends (client and server side) whose read() returns 1 or 3 bytes at a time. '
+        "Destinations with doubled slashes; entries dated on a leap day / New Year's Eve / 1971 / 2099 on "
+        'LIST-only servers.',
+    'C10':
+        ' Also with a suspending user manager: BFS on it and disconnect / pipelined-USER races inside its '
+        'awaits; the alphabet includes an empty line and an unknown verb. Replies the server encoding cannot '
+        'represent; server restart and a failing user manager in the middle of a re-login; counters must be '
+        'exactly at their maximum once everybody has gone.',
+    'C11':
+        ' Also on an IPv6 control connection (PASV answered 503, EPSV served). close() and a second start() '
+        'after short histories, with the pool given as a list or as a one-shot generator.',
+    'C12':
+        ' Also on a speed-limited server and with a suspending user manager, with additional cuts placed '
+        'before every advance of virtual time (the server sleeps in a throttle pause or a slow backend call); '
+        'the clock is frozen at the cut itself. server.close() while another client is connecting.',
+    'C13':
+        ' A backend whose close() returns a value; a data connection opened before other commands must '
+        'survive their failures.',
+    'C14':
+        ' Also on the executor-based backend (ABOR racing with file operations in flight). Also with a second '
+        'data connection opened in advance for the next transfer just before the ABOR, and that transfer then '
+        'run without a new PASV.',
+    'C15':
+        ' Logins of the same account during the measured transfers; LIST and MLSD of a large directory as '
+        'throttled transfers.',
+    'C16':
+        ' Also with a user manager whose logout notification takes 5 s: the sockets must still be released at '
+        'the bound; and sessions that end with QUIT (alone or pipelined behind other commands) from a peer '
+        'that does not read. Throttle pauses longer than the timeouts (a peer that never stalls is never '
+        'dropped); a data peer that stops reading while the control connection is read.',
+    'C17':
+        " Every backend call on a session's own directory must come from the PathIO instance created for that "
+        "session's Connection (custom backends read it). A limited user's session that dies awkwardly "
+        'followed by the next session; two users with different bases and permissions on the same virtual '
+        'paths.',
+    'C18':
+        ' Including uploads sent in two pieces with an MLST of the same file between them.',
+    'C19':
+        " LIST lines that end before the file name are explicit cases (reported, not dropped as '.'). Parser "
+        'termination: pumped token runs at every token boundary, each input in a child process with a '
+        'wall-clock budget.',
+    'C20':
+        ' Also what follows an accepted login (work, re-login) alone and next to a second session of the same '
+        'account that quits or vanishes. Non-ASCII spellings of PASS; a password check guarded by '
+        'aioftp.with_timeout that times out.',
 }
 
 ENV_NOTE = ("Trusted base: the environment model (vf/simloop.py: selector, TCP, clock, executor) and the harness-side "
